@@ -45,7 +45,8 @@ def plan(tier, seed):
 def required(tier):
     return {"alone_vs_joint_columns": 100, "subset_permutation_columns": 60, "assemble_haplotype_containment_checked": 30,
             "pool_read_matrix_checked": 30, "pool_vs_merged_records": 30, "bam_order_runs": 16, "sample_in_two_pools_runs": 8, "datasets_with_shared_bam": 4, "pool_files_with_interleaved_pools": 4, "datasets_with_per_sample_inbreeding": 4, "datasets_with_report_fields": 6,
-            "datasets_with_per_sample_temperatures": 4, "datasets_with_sampler_options": 6, "datasets_with_input_filter_or_prior": 6}
+            "datasets_with_per_sample_temperatures": 4, "datasets_with_sampler_options": 6, "datasets_with_input_filter_or_prior": 6,
+            "datasets_samples_by_read_group_id": 4, "shared_vs_split_file_runs": 10, "shared_vs_split_file_columns": 100}
 
 
 def argv(ds, prog, bams, hap=None, ploidy_file=None, extra=(), sel=None):
@@ -80,6 +81,8 @@ def argv(ds, prog, bams, hap=None, ploidy_file=None, extra=(), sel=None):
             a += ["--inbreeding", repr(ds.inbreeding)]
     if prog in ("call", "call-exact") and getattr(ds, "report", None):
         a += ["--report"] + list(ds.report)
+    if getattr(ds, "rg_field", None):
+        a += ["--read-group-field", ds.rg_field]
     return a + list(extra)
 
 
@@ -134,8 +137,27 @@ def run_shard(tier, seed, spec, col):
         n_s = int(rng.integers(3, 5))
         # every second dataset keeps two samples in one BAM file (shared path, separate read groups)
         spb = 2 if (dI + spec["shard"]) % 2 else 1
-        ds = datasets.make_dataset(rng, root, n_samples=n_s, n_loci=int(rng.integers(3, 6)), ploidy=[2, 4], depth=(5, 14), contig_len=800,
-                                   snv_range=(1, 4), hostile=0.1, samples_per_bam=spb, rgs_per_sample=(1, 2))
+        # every fourth dataset identifies samples by read-group ID (--read-group-field ID): each read group is a sample of its
+        # own although several of them share one SM (and one file)
+        id_mode = (dI + spec["shard"]) % 4 == 2
+        if id_mode:
+            ds = datasets.make_dataset(rng, root, n_samples=2, n_loci=int(rng.integers(3, 6)), ploidy=[2, 4], depth=(8, 18), contig_len=800,
+                                       snv_range=(1, 4), hostile=0.1, samples_per_bam=spb, rgs_per_sample=(2, 2))
+            by_id = [(rg, s_) for s_ in ds.samples for rg in ds.sample_rgs[s_]]
+            for rg, s_ in by_id:
+                ds.ploidy[rg] = ds.ploidy[s_]
+                ds.sample_bam[rg] = ds.sample_bam[s_]
+                for L in ds.loci:
+                    ds.genotypes[(rg, L["name"])] = ds.genotypes[(s_, L["name"])]
+            for rg, s_ in by_id:
+                ds.sample_rgs[rg] = [rg]
+            ds.samples = [rg for rg, _ in by_id]
+            ds.rg_field = "ID"
+            n_s = len(ds.samples)
+            col.count("datasets_samples_by_read_group_id")
+        else:
+            ds = datasets.make_dataset(rng, root, n_samples=n_s, n_loci=int(rng.integers(3, 6)), ploidy=[2, 4], depth=(5, 14), contig_len=800,
+                                       snv_range=(1, 4), hostile=0.1, samples_per_bam=spb, rgs_per_sample=(1, 2))
         if spb > 1:
             col.count("datasets_with_shared_bam")
         ds.mcmc_seed = int(rng.choice([0, 1, 11, 42]))          # 0 is the hostile (falsy) value
@@ -271,6 +293,38 @@ def run_shard(tier, seed, spec, col):
                                     if abs(qa[sq] - qj[sq]) > 1e-9 and not (sq == r2.ref and ("REFMASKED" in r2.info) != ("REFMASKED" in rJ.info)):
                                         col.violation("sample-statistics-depend-on-other-samples", "assemble %s:%d sample %s AFP of %s: %s vs %s" % (key[0], key[1], s, sq, qa[sq], qj[sq]), case)
                                         break
+            # ---- the same samples from physically separate files: when several samples (or several read groups used as samples)
+            # live in one BAM, a sample's column must equal the one obtained from a BAM holding ONLY its own alignments
+            if prog in ("call-exact", "call") and len(set(bam_of.values())) < len(bam_of):
+                split_of = {}
+                for s_ in ds.samples:
+                    src = bam_of[s_]
+                    own = [dict(al) for al in ds.bam_alignments[src] if al["rg"] in ds.sample_rgs[s_]]
+                    rgs = [rg for rg in ds.bam_rgs[src] if rg["ID"] in ds.sample_rgs[s_]]
+                    sp = os.path.join(root, "split_%s.bam" % s_)
+                    if not os.path.exists(sp):
+                        datasets.write_bam(sp, ds.contigs, rgs, own)
+                    split_of[s_] = sp
+                case = dict(rep, program=prog, selection="split-files")
+                col.case(case, nontrivial=True)
+                out3, exc3 = cli.run_inproc(argv(ds, prog, bam_arg(ds, root + "/", ds.samples, split_of), hv, sel=ds.samples))
+                if exc3 is not None:
+                    col.violation("program-fails-on-valid-input", "%s on per-sample files raised %r" % (prog, exc3), case)
+                else:
+                    h3, part3 = by_locus(out3)
+                    col.count("shared_vs_split_file_runs")
+                    for key, r3 in part3.items():
+                        rJ = joint.get(key)
+                        if rJ is None or h3.samples != hJ.samples:
+                            col.violation("locus-set-depends-on-samples", "%s: records / samples differ between shared and per-sample files" % prog, case)
+                            break
+                        bad = [s_ for s_ in ds.samples if col_text(r3, h3, s_) != col_text(rJ, hJ, s_)]
+                        col.count("shared_vs_split_file_columns", len(ds.samples))
+                        if bad:
+                            s_ = bad[0]
+                            col.violation("sample-column-depends-on-other-reads-in-its-file", "%s %s:%d sample %s: '%s' from the shared file, '%s' from a file holding only its own alignments"
+                                          % (prog, key[0], key[1], s_, col_text(rJ, hJ, s_)[:100], col_text(r3, h3, s_)[:100]), case)
+                            break
             if prog == "call-exact" and dI == 0 and spec["shard"] == 0:
                 col.sample({"program": prog, "samples": ds.samples, "joint_first_record": out.splitlines()[-1][:300]})
         # ---- pools: read matrix == multiset union; call-exact pool vs merged BAM
